@@ -4,6 +4,6 @@ cd "$(dirname "$0")/.."
 for s in "$@"; do
   for i in 01 02 03 04 05 06 07 08 09 10 11 12 13 14 15 16 17 18 19 20; do
     out=$(VERIF_SEED=$s bin/check C$i --tier quick 2>&1); rc=$?
-    echo "seed=$s C$i rc=$rc $(echo "$out" | grep -E '^(OK|VIOLATION|INFRA|KNOWN)' | tail -1 | cut -c1-110)"
+    echo "seed=$s C$i rc=$rc $(echo "$out" | grep -a -E '^(OK|VIOLATION|INFRA|KNOWN)' | tail -1 | cut -c1-110)"
   done
 done
